@@ -1,7 +1,11 @@
 """C13 (string.dump / load) and C14 (build options): relational conformance.  One specification behaviour per program
 (from the TLA+ program generators, see corpus.py), several implementations of it: the chunk itself, load(string.dump(chunk)),
 load(string.dump(load(string.dump(chunk)))) for C13; the driver built with each performance build-tag set for C14.
-Every variant must conform to the specification's expected events, results and errors."""
+Every variant must conform to the specification's expected events, results and errors.
+Round 2: (C13) the size family of spec/DumpSize.tla: program shapes scaled over the encoding boundaries, each run directly,
+through dump / load, through a stripped dump, through dump / load / dump (stability) and as an inner closure;
+(C13, C14) the chain programs of spec/DeadCo.tla: errors crossing Go functions inside coroutines, inspection of the dead
+coroutines (status, traceback, getinfo, close) before and after further calls that reuse the pools."""
 import json, os, re, sys, random
 sys.path.insert(0, os.path.join(os.path.dirname(os.path.abspath(__file__)), "..", "lib"))
 from vlib import *
@@ -16,11 +20,77 @@ def strip(o):
     return {k: v for k, v in o.items() if k not in ("trace", "wall_ms", "id", "alloc_bytes", "stdout")}
 
 
+def nclass(n):
+    return "<=127" if n <= 127 else "<=200" if n <= 200 else "<=255" if n <= 255 else "<=1000" if n <= 1000 else "<=32767" if n <= 32767 else "<=65535" if n <= 65535 else ">65535"
+
+
+def size_family(rep, drv, tier):
+    """C13: DumpSize.tla.  One driver case per (shape, n); the wrapper runs every variant in turn and marks the sections."""
+    cov = rep.cov
+    items, res = corpus.build_dumpsize(tier)
+    cases = [{"id": i, "src": it["src"], "timeout": 300000, "maxev": 2000} for i, it in enumerate(items)]
+    outs = run_lua_cases(drv, cases, nproc=max(2, NCPU // 2), timeout_s=1800)
+    vac, nrun, shapes = {}, 0, {}
+    for i, it in enumerate(items):
+        o = outs[i]
+        got = corpus.ds_split(o.get("events", []))
+        exps = it["variants"]
+        broke = o.get("timeout") or o.get("crash") or o.get("panic")
+        ref = got.get(exps[0]["v"])
+        if ref is None or not corpus.ds_match(exps[0]["ev"], ref) or (broke and len(got) <= 1):
+            # the source did not compile (an implementation limit: C04's domain) or the direct run itself deviates:
+            # nothing to say about the round trip
+            first = o["events"][0][0].get("s", "?") if o.get("events") and o["events"][0] and isinstance(o["events"][0][0], dict) else "?"
+            reason = "not-compiled" if first == "not-compiled" else "crash-in-direct" if broke else "direct-deviates"
+            vac[reason] = vac.get(reason, 0) + 1
+            cov.setdefault("size_vacuous_cases", []).append("%s:%d:%s" % (it["shape"], it["n"], reason))
+            continue
+        shapes[it["shape"]] = shapes.get(it["shape"], 0) + 1
+        for e in exps[1:]:
+            nrun += 1
+            g = got.get(e["v"])
+            why = None
+            if g is None:
+                why = "crash" if broke else "missing"
+            elif not corpus.ds_match(e["ev"], g):
+                tag = g[0][0].get("s") if g and g[0] and isinstance(g[0][0], dict) else None
+                if broke and len(g) < len(e["ev"]):
+                    why = "crash"
+                elif tag in ("reload-failed", "dump-failed", "runtime-error", "not-a-function", "inner-not-compiled"):
+                    why = tag
+                elif tag == "stable" and g[0] != [{"s": "stable"}, True, True]:
+                    why = "dump-not-stable"
+                else:
+                    why = "events"
+            elif e["v"] != "strip":
+                # what the specification leaves open must still be what the function itself shows
+                body = g[1:] if e["v"] == "redump" else g
+                if body != ref:
+                    why = "differs-from-direct"
+            if why:
+                cov["disagreements_checked"] += 1
+                rep.violation({"kind": "size-roundtrip", "shape": it["shape"], "variant": e["v"], "why": why, "nclass": nclass(it["n"])},
+                              {"cmd": "lua-run", "shape": it["shape"], "n": it["n"], "variant": e["v"], "why": why, "expected": e["ev"], "observed": g,
+                               "direct": ref, "shape_src_head": it["shape_src_head"], "wrapper": corpus.DS_WRAPPER[:60] + "...",
+                               "driver": {k: v for k, v in o.items() if k in ("panic", "timeout", "crash", "stderr", "errstr", "ok")}})
+    cov.update(size_cases=len(items), size_cases_per_shape=shapes, size_vacuous=vac, size_variant_runs=nrun, size_spec_states=res.distinct)
+    log("[C13] size family: %d (shape, n) cases, %d vacuous %s, %d variant runs compared" % (len(items), sum(vac.values()), vac, nrun))
+    if sum(vac.values()) > len(items) * 2 // 5:
+        raise Infra("the size family is mostly vacuous: %s" % vac)
+    rep.sample({"size_family": [it["shape"] + ":" + str(it["n"]) for it in items[:6]], "variants": [e["v"] for e in items[0]["variants"]]})
+
+
 def run(prop, tier):
     rep = Report(prop, tier, "translation_validation")
     cov = rep.cov
     rng = random.Random(seed())
     items = corpus.build(tier, rng)
+    if prop == "C14":
+        dc_items, dc_info = corpus.build_deadco(tier, rng, n_quick=700, n_sim=100)
+    else:
+        dc_items, dc_info = corpus.build_deadco("quick", rng, n_quick=250 if tier == "quick" else 1680, n_sim=40 if tier == "quick" else 300)
+    items += dc_items
+    cov.update(dc_info)
     cov.update(programs=0, disagreements_checked=0, variants=[], families={}, spec_expectations=len(items), stress_programs=len(corpus.STRESS))
     for it in items:
         cov["families"][it["family"]] = cov["families"].get(it["family"], 0) + 1
@@ -30,29 +100,23 @@ def run(prop, tier):
     else:
         variants = [(name, build_driver(tags=tags), {}) for name, tags in TAGSETS]
     results = {}
-    skip = set()   # programs on which the reference variant itself deviates from the spec: that is the owning property's finding
+    skip = set()   # programs on which EVERY variant deviates from the spec: that is the owning property's finding
+    whys = {}      # variant -> {program index -> why}
     for vi, (vname, drv, extra) in enumerate(variants):
         cases = [dict({"id": i, "src": it["src"], "timeout": 15000}, **extra) for i, it in enumerate(items)]
         cases += [dict({"id": len(items) + j, "src": src, "timeout": 30000}, **extra) for j, (nm, src, exp) in enumerate(corpus.STRESS)]
         outs = run_lua_cases(drv, cases)
         results[vname] = outs
         nbad = 0
+        whys[vname] = {}
         for i, it in enumerate(items):
             o = outs[i]
             cov["programs"] += 1
             why = it["judge"](o)
-            if vi == 0 and why is not None:
-                skip.add(i)
-                continue
-            if i in skip:
-                continue
             if why is None and extra.get("mode") and o.get("dump_stable") is False:
                 why = {"kind": "dump-not-stable", "detail": "string.dump is not deterministic or dump(load(dump(f))) differs from dump(f)"}
             if why:
-                nbad += 1
-                cov["disagreements_checked"] += 1
-                rep.violation({"kind": why.get("kind", "mismatch"), "variant": vname, "family": it["family"], "tag": why.get("tag", "")},
-                              {"cmd": "lua-run", "variant": vname, "src": it["src"], "observed": strip(o), "why": why})
+                whys[vname][i] = why
         for j, (nm, src, exp) in enumerate(corpus.STRESS):
             o = outs[len(items) + j]
             cov["programs"] += 1
@@ -67,8 +131,24 @@ def run(prop, tier):
                 nbad += 1
                 cov["disagreements_checked"] += 1
                 rep.violation({"kind": "stress", "variant": vname, "program": nm}, {"cmd": "lua-run", "variant": vname, "src": src, "observed": strip(o), "why": bad})
-        cov["variants"].append({"variant": vname, "programs": len(cases), "nonconforming": nbad})
-        log("[%s] variant %s: %d programs, %d nonconforming" % (prop, vname, len(cases), nbad))
+        cov["variants"].append({"variant": vname, "programs": len(cases), "deviating_from_spec": len(whys[vname]), "stress_nonconforming": nbad})
+        log("[%s] variant %s: %d programs, %d deviate from the specification, %d stress programs nonconforming" % (prop, vname, len(cases), len(whys[vname]), nbad))
+    # A program on which every variant deviates from the specification is the owning property's finding (the variants
+    # agree; their mutual agreement is checked below).  A deviation that only some variants show - the reference
+    # included: a pool defect shows in the default build and not in the builds without pools - is this property's.
+    for i, it in enumerate(items):
+        dev = [vname for vname, _, _ in variants if i in whys[vname]]
+        if len(dev) == len(variants):
+            skip.add(i)
+            continue
+        for vname in dev:
+            why = whys[vname][i]
+            cov["disagreements_checked"] += 1
+            rep.violation({"kind": why.get("kind", "mismatch"), "variant": vname, "family": it["family"], "tag": why.get("tag", "")},
+                          {"cmd": "lua-run", "variant": vname, "src": it["src"], "observed": strip(results[vname][i]), "why": why, "case": it.get("case"),
+                           "conforming_variants": [v for v, _, _ in variants if v not in dev]})
+    if prop == "C13":
+        size_family(rep, variants[0][1], tier)
     if prop == "C14":
         # finalisers and releases under every build (the safepool tag selects the other finaliser-pool implementation):
         # GC scripts from GCGen.tla (incl. re-marking), events validated by TLC against GCTrace.tla per build
@@ -98,8 +178,13 @@ def run(prop, tier):
                 cov["disagreements_checked"] += 1
                 src = items[i]["src"] if i < len(items) else corpus.STRESS[i - len(items)][1]
                 # identity numbers of tables/functions and error positions are part of the comparison on purpose
-                rep.violation({"kind": "variants-disagree", "variant": vname, "ref": ref},
-                              {"cmd": "lua-run", "src": src, "reference": strip(a), "variant_output": strip(b)})
+                ea, eb = a.get("events") or [], b.get("events") or []
+                j = next((j for j in range(min(len(ea), len(eb))) if ea[j] != eb[j]), min(len(ea), len(eb)))
+                e = (ea[j] if j < len(ea) else eb[j] if j < len(eb) else None)
+                tag = e[0].get("s", "") if e and isinstance(e[0], dict) else "" if e is not None else "outcome"
+                rep.violation({"kind": "variants-disagree", "variant": vname, "ref": ref, "family": items[i]["family"] if i < len(items) else "stress", "tag": tag},
+                              {"cmd": "lua-run", "src": src, "reference": strip(a), "variant_output": strip(b), "first_difference_at_event": j,
+                               "case": items[i].get("case") if i < len(items) else None})
     rep.sample({"program": items[0]["src"][-600:], "family": items[0]["family"], "variants": [v[0] for v in variants]})
     cov["explanation"] = "each program's expected behaviour comes from the TLA+ program generators; every variant is judged against it and against the reference variant"
     return rep.finish()
